@@ -202,6 +202,7 @@ type Exec struct {
 	applied     map[string]int  // contracts applied at call sites -> count
 	visits      int             // executed blocks (guards against runaway unrolling)
 	prog        *Program
+	watches     [][2]string // (source text, SMT term over the entry state) evaluated in counterexamples
 }
 
 func (e *Exec) declOnce(d string) {
@@ -1716,6 +1717,14 @@ func (e *Exec) contractPost(st *State, ret *ssa.Return, rs []string) {
 
 func (e *Exec) contractPre(st *State) {
 	c := e.newCtx(st)
+	for _, p := range e.fn.Params {
+		e.watches = append(e.watches, [2]string{p.Name(), st.vals[p]})
+	}
+	for i, cl := range e.contract.Watch {
+		if t, ok := e.safeCompile(c, cl, fmt.Sprintf("watch %d", i+1)); ok {
+			e.watches = append(e.watches, [2]string{cl.Src, t})
+		}
+	}
 	for i, cl := range append(append([]Clause{}, e.contract.Requires...), e.contract.Given...) {
 		if t, ok := e.safeCompile(c, cl, fmt.Sprintf("requires %d", i+1)); ok {
 			st.assume = append(st.assume, t)
